@@ -443,6 +443,32 @@ def mbinop (op : Fld K → Fld K → Except String (Fld K)) (a b : MFld K) : Exc
 def mmap (op : Fld K → Fld K) (a : MFld K) : MFld K :=
   { a with leaves := a.leaves.map fun kv => (kv.1, op kv.2) }
 
+def insertLeaf (kv : String × Fld K) : List (String × Fld K) → List (String × Fld K)
+  | [] => [kv]
+  | h :: t => if kv.1 < h.1 then kv :: h :: t else h :: insertLeaf kv t
+
+/-- the dictionary loop of MultiField.flexible_addsub for different MultiDomains: shared keys are combined with the
+    Field operation (which checks the leaf domains), new keys are copied (negated for subtraction);
+    `MultiField.from_dict` then sorts the keys -/
+def mflexLoop (opf : Fld K → Fld K → Except String (Fld K)) (single : Fld K → Fld K) :
+    List (String × Fld K) → List (String × Fld K) → Except String (List (String × Fld K))
+  | res, [] => .ok res
+  | res, (k, v) :: t =>
+    match res.find? (fun kv => kv.1 == k) with
+    | some (_, r) =>
+      match opf r v with
+      | .error e => .error e
+      | .ok n => mflexLoop opf single (res.map fun kv => if kv.1 == k then (k, n) else kv) t
+    | none => mflexLoop opf single (insertLeaf (k, single v) res) t
+
+/-- MultiField.flexible_addsub(other, neg: bool) / unite (neg = False) -/
+def mflex (add sub : Fld K → Fld K → Except String (Fld K)) (negf : Fld K → Fld K) (a b : MFld K) (neg : Bool) :
+    Except String (MFld K) :=
+  if a.dom = b.dom then mbinop (if neg then sub else add) a b else
+  match mflexLoop (if neg then sub else add) (if neg then negf else id) a.leaves b.leaves with
+  | .error e => .error e
+  | .ok l => .ok { dom := 0, leaves := l }
+
 def sVdotLeaves [Add K] [Mul K] [OfNat K 0] (conj : K → K) :
     List (String × Fld K) → List (String × Fld K) → K → Except String K
   | (_, a) :: ta, (_, b) :: tb, acc =>
